@@ -502,3 +502,53 @@ fn overwrite_slot__contract() {
     overwrite_case(5, 3, false);
     kani::cover!(true, "cover: all cases exercised");
 }
+
+// =====================================================================================================
+// C04: id-directed lookup at run time.
+//   lookup_local_env(id) / lookup_local_mut(id): the slot with that id in the INNERMOST scope holding one, and the LATEST such slot
+//   within that scope; None when no scope holds the id.          lookup_func_by_id likewise over function scopes.
+// =====================================================================================================
+fn leak_vec<T: 'static>(items: Vec<T>, arena: &'static Arena) -> Vec<T, &'static Arena> {
+    let n = items.len();
+    let b: &'static mut [T] = Box::leak(items.into_boxed_slice());
+    unsafe { Vec::from_raw_parts_in(b.as_mut_ptr(), n, n, arena) }
+}
+fn any_slot_id() -> Option<LocalId> {
+    let k: u8 = kani::any();
+    kani::assume(k < 4);
+    if k == 3 { None } else { Some(LocalId(k as u32)) }
+}
+
+// @harness property=C04 fn=Runtime::lookup_local_env+lookup_local_mut kind=bounded tier=quick cfg=release timeout=600 domain="bounded: 3 scopes x 2 slots; every assignment of ids {0,1,2,none} to the 6 slots; every queried id"
+#[kani::proof]
+#[kani::unwind(22)]
+fn lookup_local__innermost_latest() {
+    let arena = bk::mk_arena(1);
+    let mut rt = mk_runtime(arena, arena);
+    let ids: [Option<LocalId>; 6] = [any_slot_id(), any_slot_id(), any_slot_id(), any_slot_id(), any_slot_id(), any_slot_id()];
+    let slot = |k: usize| LocalSlot { id: ids[k], name: "v", value: Value::Number(k as f64) };
+    rt.env = leak_vec(vec![
+        leak_vec(vec![slot(0), slot(1)], arena),
+        leak_vec(vec![slot(2), slot(3)], arena),
+        leak_vec(vec![slot(4), slot(5)], arena),
+    ], arena);
+    let q: u32 = kani::any();
+    kani::assume(q < 3);
+    // specification: scan from the innermost scope, latest slot first
+    let mut expect: Option<usize> = None;
+    let mut k = 0;
+    while k < 6 {
+        if ids[k] == Some(LocalId(q)) {
+            expect = Some(k); // later k = more inner scope / later slot
+        }
+        k += 1;
+    }
+    let got = rt.lookup_local_env(LocalId(q)).map(|v| match v { Value::Number(n) => *n as usize, _ => 99 });
+    assert!(got == expect, "post: lookup_local_env finds the innermost scope's latest slot with that id (None if absent)");
+    let got_mut = rt.lookup_local_mut(LocalId(q)).map(|v| match v { Value::Number(n) => *n as usize, _ => 99 });
+    assert!(got_mut == expect, "post: lookup_local_mut resolves to the same slot as lookup_local_env");
+    kani::cover!(expect == Some(1) , "cover: found only in the outermost scope");
+    kani::cover!(expect.is_none(), "cover: absent id");
+    kani::cover!(ids[5] == Some(LocalId(q)) && ids[4] == Some(LocalId(q)), "cover: re-declared in the innermost scope");
+    std::mem::forget(rt);
+}
